@@ -1,6 +1,6 @@
 (* ExtraRefine2.v — the regenerated glue of Gen_extra2.v against the hand-written models: gaps and eps-F1 (Metrics.v),
    ContinuousProblem / locate_points (Problem.v), initial regions, the initial state of every algorithm (Spec.init_state). *)
-From Coq Require Import QArith List Bool Arith Lia Permutation.
+From Coq Require Import QArith Lqa List Bool Arith Lia Permutation.
 From VOPy Require Import QVec Problem ProblemProofs Metrics MetricsProofs Spec Invariants StepMachine ExtraRefine.
 From VOPyGen Require Import Gen_problem Gen_extra Gen_extra2.
 Import ListNotations.
@@ -242,3 +242,86 @@ Lemma gen_inits_are_init_state : forall K b L,
   gen_init_auer K b L = mkast (init_state K) 0 0 0 b L /\
   gen_init_vogp_ad K b L = mkast (init_state 1) 0 0 0 b L.
 Proof. intros. repeat split; reflexivity. Qed.
+
+(* ---------- the slacks the transitions are run with *)
+Lemma gen_slack_spec : forall (v : vec) eps,
+  length (gen_pv_slack v eps) = length v /\ length (gen_vg_slack v eps) = length v /\
+  forall n, (n < length v)%nat -> nth n (gen_pv_slack v eps) 0 = nth n v 0 * eps /\ nth n (gen_vg_slack v eps) 0 = nth n v 0 * eps.
+Proof.
+  intros v eps. unfold gen_pv_slack, gen_vg_slack. rewrite !map_length. split; [reflexivity|]. split; [reflexivity|].
+  intros n Hn. split.
+  - rewrite (nth_indep _ 0 ((fun a => a * eps) 0)) by (rewrite map_length; exact Hn). rewrite (map_nth (fun a => a * eps)). reflexivity.
+  - rewrite (nth_indep _ 0 ((fun a => a * eps) 0)) by (rewrite map_length; exact Hn). rewrite (map_nth (fun a => a * eps)). reflexivity.
+Qed.
+
+(* ---------- Dataset.__init__: min-max scaled inputs, standardised outputs *)
+Lemma ds_sum_shift : forall col m, gen_ds_sum (map (fun x => x - m) col) == gen_ds_sum col - inject_Z (Z.of_nat (length col)) * m.
+Proof.
+  intros col m. unfold gen_ds_sum. induction col as [|x col IH]; cbn [map fold_right length].
+  - cbn. ring.
+  - rewrite IH. rewrite Nat2Z.inj_succ. unfold Z.succ. rewrite inject_Z_plus. ring.
+Qed.
+
+Lemma ds_sum_div : forall (f : Q -> Q) col s, ~ s == 0 -> gen_ds_sum (map (fun x => f x / s) col) == gen_ds_sum (map f col) / s.
+Proof.
+  intros f col s Hs. unfold gen_ds_sum. induction col as [|x col IH]; cbn [map fold_right].
+  - field. exact Hs.
+  - rewrite IH. field. exact Hs.
+Qed.
+
+Lemma ds_len_nonzero : forall (col : list Q), col <> [] -> ~ inject_Z (Z.of_nat (length col)) == 0.
+Proof.
+  intros col H. destruct col as [|x col]; [congruence|]. cbn [length]. rewrite Nat2Z.inj_succ.
+  unfold Qeq. cbn. lia.
+Qed.
+
+(* every standardised output column has mean 0 ... *)
+Lemma ds_standardised_mean_zero : forall col std, col <> [] -> ~ std == 0 -> gen_ds_sum (gen_ds_standardise col std) == 0.
+Proof.
+  intros col std H Hs. unfold gen_ds_standardise.
+  rewrite (ds_sum_div (fun x => x - gen_ds_mean col) col std Hs).
+  rewrite ds_sum_shift. unfold gen_ds_mean. pose proof (ds_len_nonzero col H) as Hn.
+  field. split; assumption.
+Qed.
+
+(* ... and population variance 1, whenever std * std is the column's population variance *)
+Lemma ds_standardised_variance_one : forall col std, col <> [] -> ~ std == 0 -> std * std == gen_ds_variance col ->
+  gen_ds_sum (map (fun y => y * y) (gen_ds_standardise col std)) / inject_Z (Z.of_nat (length col)) == 1.
+Proof.
+  intros col std H Hs Hv. unfold gen_ds_standardise. rewrite map_map.
+  assert (E : gen_ds_sum (map (fun x => (x - gen_ds_mean col) / std * ((x - gen_ds_mean col) / std)) col)
+              == gen_ds_sum (map (fun x => (x - gen_ds_mean col) * (x - gen_ds_mean col)) col) / (std * std)).
+  { assert (Hss : ~ std * std == 0) by (intros Z0; apply Qmult_integral in Z0; destruct Z0; contradiction).
+    rewrite <- (ds_sum_div (fun x => (x - gen_ds_mean col) * (x - gen_ds_mean col)) col (std * std) Hss).
+    unfold gen_ds_sum. induction col as [|x c IH]; cbn [map fold_right]; [reflexivity|].
+    assert (Hc : forall (l : list Q) m, fold_right Qplus 0 (map (fun x0 => (x0 - m) / std * ((x0 - m) / std)) l)
+                   == fold_right Qplus 0 (map (fun x0 => (x0 - m) * (x0 - m) / (std * std)) l)).
+    { intros l m. induction l as [|z l IHl]; cbn [map fold_right]; [reflexivity|]. rewrite IHl. field. exact Hs. }
+    rewrite (Hc c). field. exact Hs. }
+  rewrite E. pose proof (ds_len_nonzero col H) as Hn.
+  unfold gen_ds_variance in Hv.
+  assert (Hss : ~ std * std == 0) by (intros Z0; apply Qmult_integral in Z0; destruct Z0; contradiction).
+  set (S2 := gen_ds_sum (map (fun x => (x - gen_ds_mean col) * (x - gen_ds_mean col)) col)) in *.
+  set (n := inject_Z (Z.of_nat (length col))) in *.
+  assert (HS : S2 == std * std * n) by (rewrite Hv; field; exact Hn).
+  rewrite HS. field. split; assumption.
+Qed.
+
+(* every min-max scaled input column lies in [0, 1] and attains both ends *)
+Lemma ds_minmax_in_unit : forall col, col <> [] -> ~ qmaxl col 0 == qminl col 0 ->
+  (forall y, In y (gen_ds_minmax col) -> 0 <= y /\ y <= 1) /\
+  (exists y0, In y0 (gen_ds_minmax col) /\ y0 == 0) /\ (exists y1, In y1 (gen_ds_minmax col) /\ y1 == 1).
+Proof.
+  intros col H Hne. unfold gen_ds_minmax. cbv zeta.
+  destruct (qminl_spec col 0 H) as [Hmin_in Hmin]. destruct (qmaxl_spec col 0 H) as [Hmax_in Hmax].
+  set (lo := qminl col 0) in *. set (hi := qmaxl col 0) in *.
+  assert (Hlt : lo < hi).
+  { destruct (Qlt_le_dec lo hi) as [L|L]; [exact L|]. exfalso. apply Hne. apply Qle_antisym; [exact L | apply Hmin; exact Hmax_in]. }
+  split; [|split].
+  - intros y Hy. apply in_map_iff in Hy. destruct Hy as [x [Hx Hin]]. subst y.
+    exact (normalize_in_unit lo hi x Hlt (Hmin x Hin) (Hmax x Hin)).
+  - exists ((lo - lo) / (hi - lo)). split; [apply in_map_iff; exists lo; split; [reflexivity | exact Hmin_in]|].
+    field. intros Z0. apply Hne. unfold hi, lo in *. lra.
+  - exists ((hi - lo) / (hi - lo)). split; [apply in_map_iff; exists hi; split; [reflexivity | exact Hmax_in]|].
+    field. intros Z0. apply Hne. lra.
+Qed.
